@@ -90,6 +90,13 @@ Theorem C10_dispatch_nil_safe :
 Proof. exact dispatch_nil_safe_lemma. Qed.
 Print Assumptions C10_dispatch_nil_safe.
 
+(* The archiver's half of that invariant: ProcessBody returning nil has set the MIME type, whatever
+   the status code and whichever of its reads / writes failed. *)
+Theorem C10_process_body_sets_mime :
+  forall e mime_set body_set, process_body e = Some (mime_set, body_set) -> mime_set = true.
+Proof. exact process_body_sets_mime_lemma. Qed.
+Print Assumptions C10_process_body_sets_mime.
+
 (* An item in any other state is returned untouched even if everything is nil. *)
 Theorem C10_dispatch_not_archived :
   forall c v p x, v_status v <> Archived -> postprocess_item c v p x = Ok (Out (v_status v) 0 0).
